@@ -356,6 +356,13 @@ def b_dict(ip, args, kwargs, node):
     return ip.new_dict(d)
 
 
+def asyncio_queue(ip, args, kwargs, node):
+    # asyncio.Queue(): an unbounded FIFO, empty when created (the bounded form is outside the subset)
+    if args or kwargs:
+        raise Unsupported("asyncio.Queue with a maxsize")
+    return ip.new_list([])
+
+
 def b_list(ip, args, kwargs, node):
     return ip.new_list(ip.iterate(args[0]) if args else [])
 
@@ -845,6 +852,7 @@ def build_lib() -> dict:
                                          ("gather", "sleep", "wait", "get_running_loop")})
     lib["asyncio"].attrs["create_task"] = VBuiltin("asyncio.create_task", asyncio_create_task)
     lib["create_task"] = lib["asyncio"].attrs["create_task"]
+    lib["asyncio"].attrs["Queue"] = VBuiltin("asyncio.Queue", asyncio_queue)
     for n in ("FIRST_COMPLETED", "ALL_COMPLETED", "FIRST_EXCEPTION"):
         lib["asyncio"].attrs[n] = VStr(n)
     lib["asyncio"].attrs["wait_for"] = VBuiltin("asyncio.wait_for", asyncio_wait_for)
